@@ -36,10 +36,12 @@ def ext_as_future(ex, state, args, kwargs, sv):
 def build(reg):
     W.build_shapes(reg)
     common = dict(props=["C06"], spec_module="specs.wamp")
-    reg.shapes["Ghost"].fields.update({"n_onleave": "nat", "n_ondisconnect": "nat", "n_onjoin": "nat", "n_close": "nat"})
+    reg.shapes["Ghost"].fields.update({"n_onleave": "nat", "n_ondisconnect": "nat", "n_onjoin": "nat", "n_close": "nat",
+                                       "n_fire_join": "nat", "n_fire_leave": "nat", "n_onwelcome": "nat",
+                                       "n_onchallenge": "nat"})
     reg.external("txaio.as_future", ext_as_future)
     reg.external("txaio.add_callbacks", lambda ex, state, args, kwargs, sv: VNone)
-    reg.external("session.fire", lambda ex, state, args, kwargs, sv: VOpaque(fresh_name("fire")))
+    reg.external("session.fire", _ext_fire)
     reg.external("transport.close", _ext_close)
     reg.shapes["Transport"].methods.update({"close": "transport.close"})
     reg.shapes["Transport"].fields.update({"is_closed": "any"})
@@ -101,6 +103,7 @@ def build(reg):
                  "ghost.n_ondisconnect == old(ghost.n_ondisconnect) + 1"], **common)
     build_errback(reg, common)
     build_guards(reg, common)
+    build_handshake(reg, common)
     reg.contract(SESS + ".disconnect", params={"self": "obj:Session"}, modifies=["ghost.n_close"],
                  ensures=["ghost.n_close == old(ghost.n_close) + (1 if self._transport is not None else 0)"], **common)
 
@@ -140,6 +143,116 @@ def build_errback(reg, common):
                  modifies=MOD, ensures=EMPTY, **common)
 
 
+def _ext_fire(ex, state, args, kwargs, sv):
+    """ObservableMixin.fire(event, ...): 'join' / 'leave' notifications are counted"""
+    g = state.heap[state.ghost.oid]
+    ev = args[0]
+    if isinstance(ev, VStr):
+        for name, fld in (("join", "n_fire_join"), ("leave", "n_fire_leave")):
+            hit = simp(ev.t == z3.StringVal(name))
+            g.fields[fld] = VInt(simp(g.fields[fld].t + z3.If(hit, 1, 0)))
+    return VOpaque(fresh_name("fire"))
+
+
+def build_handshake(reg, common):
+    """the handshake arms (session not established yet): WELCOME establishes the session only when the local onWelcome hook
+    accepts it; a denied or failing hook answers ABORT and the session stays unestablished; CHALLENGE is answered by exactly
+    one AUTHENTICATE carrying the signature, or by ABORT + leave when the hook fails; ABORT ends with leave"""
+    from pyvc import models
+    reg.shapes["Ghost"].fields.update({"n_fire_join": "nat", "n_fire_leave": "nat", "n_onwelcome": "nat",
+                                       "n_onchallenge": "nat"})
+    reg.external("session.fire", _ext_fire)
+
+    def ext_as_future2(ex, state, args, kwargs, sv):
+        fn = args[0]
+        g = state.heap[state.ghost.oid]
+        name = getattr(fn, "name", "")
+        fld = {"onLeave": "n_onleave", "onDisconnect": "n_ondisconnect", "onJoin": "n_onjoin", "onWelcome": "n_onwelcome",
+               "onChallenge": "n_onchallenge"}.get(name)
+        if fld:
+            g.fields[fld] = VInt(simp(g.fields[fld].t + 1))
+        return VOpaque(fresh_name("future_" + name))
+    reg.external("txaio.as_future", ext_as_future2)
+    reg.shape("SerializerS", fields={"SERIALIZER_ID": "str"})
+    reg.shapes["Transport"].fields.update({"_serializer": "obj:SerializerS", "transport_details": "any"})
+    reg.shapes["Session"].fields.update({"_authid": "any", "_authrole": "any", "_authmethod": "any", "_authprovider": "any",
+                                         "_authextra": "any", "_session_details": "any"})
+    reg.shapes["Session"].methods.update({"_swallow_error": "noop", "onUserError": "noop"})
+    reg.external("noop", lambda ex, state, args, kwargs, sv: VNone)
+    models.CLASS_MODELS["SessionDetails"] = lambda ex, state, args, kwargs: VOpaque(fresh_name("SessionDetails"))
+    models.CLASS_MODELS["Challenge"] = W_challenge_model(models.CLASS_MODELS.get("Challenge"))
+    reg.shape("Welcome", cls=MSG + ":Welcome", fields={
+        "session": "int", "realm": "opt:str", "authid": "any", "authrole": "any", "authmethod": "any", "authprovider": "any",
+        "authextra": "any", "roles": "any"})
+    reg.shape("Abort", cls=MSG + ":Abort", fields={"reason": "str", "message": "opt:str"})
+    reg.shape("Challenge", cls=MSG + ":Challenge", fields={"method": "str", "extra": "any"})
+    UNEST = "self._session_id is None"
+    QUIET = ("ghost.n_fire_join == old(ghost.n_fire_join) and ghost.n_onjoin == old(ghost.n_onjoin) and "
+             "ghost.n_onleave == old(ghost.n_onleave)")
+    SEND = {"SerializationError": "True", "PayloadExceededError": "True", "TransportLost": "True"}
+    # ---- the arms: the hook is called once; nothing else happens before it answers
+    for m, hook in (("Welcome", "n_onwelcome"), ("Challenge", "n_onchallenge"), ("Abort", "n_onleave")):
+        reg.contract(SESS + ".onMessage", name=SESS + ".onMessage<pre-session:%s>" % m,
+                     params={"self": "obj:Session", "msg": "obj:" + m}, requires=[UNEST],
+                     modifies=["ghost." + hook],
+                     ensures=[UNEST, "ghost.%s == old(ghost.%s) + 1" % (hook, hook), "ghost.n_sent == old(ghost.n_sent)",
+                              "ghost.n_fire_join == old(ghost.n_fire_join) and ghost.n_onjoin == old(ghost.n_onjoin)"],
+                     **common)
+    # ---- WELCOME, hook answered
+    WSET = ["self._session_id", "self._realm", "self._authid", "self._authrole", "self._authmethod", "self._authprovider",
+            "self._authextra", "self._router_roles", "self._session_details"]
+    reg.contract(
+        SESS + ".onMessage/success@message.Welcome",
+        params={"self": "obj:Session", "msg": "obj:Welcome", "res": "opt:str"}, returns="none",
+        requires=[UNEST, "self._transport is not None"],
+        modifies=WSET + ["ghost.n_sent", "ghost.last_sent", "ghost.n_fire_join"],
+        ensures=[
+            # denied by the local hook: ABORT is sent and the session is *not* established (no join, nothing recorded)
+            "implies(res is not None, self._session_id is None and ghost.n_sent == old(ghost.n_sent) + 1 and "
+            "isinstance(ghost.last_sent, Abort) and ghost.last_sent.reason == 'wamp.error.cannot_authenticate' and "
+            "ghost.n_fire_join == old(ghost.n_fire_join))",
+            # accepted: established with the router's session id, 'join' fired once, nothing sent
+            "implies(res is None, self._session_id == msg.session and ghost.n_sent == old(ghost.n_sent) and "
+            "ghost.n_fire_join == old(ghost.n_fire_join) + 1)",
+            "implies(res is None and msg.realm, self._realm == msg.realm)",
+            "ghost.n_onleave == old(ghost.n_onleave)"],
+        raises=SEND, raises_ensures={"*": [UNEST, "ghost.n_fire_join == old(ghost.n_fire_join)"]}, **common)
+    reg.contract(
+        SESS + ".onMessage/error@message.Welcome", params={"self": "obj:Session", "msg": "obj:Welcome", "e": "any"},
+        returns="any", requires=[UNEST, "self._transport is not None"], modifies=["ghost.n_sent", "ghost.last_sent"],
+        ensures=[UNEST, "ghost.n_sent == old(ghost.n_sent) + 1 and isinstance(ghost.last_sent, Abort)", QUIET],
+        raises=SEND, raises_ensures={"*": [UNEST, QUIET]}, **common)
+    # ---- CHALLENGE, hook answered: exactly one AUTHENTICATE carrying the signature (bytes are decoded)
+    reg.contract(
+        SESS + ".onMessage/success@message.Challenge",
+        params={"self": "obj:Session", "msg": "obj:Challenge", "signature": "opt:str|int"}, returns="none",
+        requires=[UNEST, "self._transport is not None"], modifies=["ghost.n_sent", "ghost.last_sent"],
+        ensures=[UNEST, "isinstance(signature, str)",
+                 "ghost.n_sent == old(ghost.n_sent) + 1 and isinstance(ghost.last_sent, Authenticate) and "
+                 "ghost.last_sent.signature == signature", QUIET],
+        raises=dict(SEND, Exception="not isinstance(signature, str)"),
+        raises_ensures={"*": [UNEST, "ghost.n_sent == old(ghost.n_sent)", QUIET]}, **common)
+    # ---- CHALLENGE, hook failed: ABORT, then leave; never established
+    reg.shape("FailureS", fields={"value": "any"})
+    reg.contract(
+        SESS + ".onMessage/error@message.Challenge",
+        params={"self": "obj:Session", "msg": "obj:Challenge", "err": "obj:FailureS"}, returns="any",
+        requires=[UNEST, "self._transport is not None"], modifies=["ghost.n_sent", "ghost.last_sent", "ghost.n_onleave"],
+        ensures=[UNEST, "ghost.n_sent == old(ghost.n_sent) + 1 and isinstance(ghost.last_sent, Abort)",
+                 "ghost.n_onleave == old(ghost.n_onleave) + 1", "ghost.n_fire_join == old(ghost.n_fire_join)"],
+        raises=SEND, raises_ensures={"*": [UNEST, "ghost.n_onleave == old(ghost.n_onleave)"]}, **common)
+
+
+def W_challenge_model(msg_model):
+    """`Challenge` names both the message class (message.Challenge) and the application-level types.Challenge handed to
+    onChallenge; the latter is opaque here"""
+    def model(ex, state, args, kwargs):
+        if len(args) == 2 and not kwargs:
+            return VOpaque(fresh_name("types_Challenge"))
+        return msg_model(ex, state, args, kwargs)
+    return model
+
+
 def build_guards(reg, common):
     """API calls made after the transport is gone fail immediately (TransportLost) instead of hanging: nothing is sent,
     no request record is created"""
@@ -174,4 +287,128 @@ def _ext_close(ex, state, args, kwargs, sv):
 
 
 def extra_checks(tier, seed):
-    return []
+    if tier != "thorough":
+        return []
+    from pyvc import replaylib as R
+    return [R.native_crosscheck("C06/bounded/handshake-histories", _HANDSHAKE_HARNESS,
+                                "optional CHALLENGE round x accepting / denying / raising onWelcome x close / leave+close / "
+                                "router GOODBYE / nothing; misbehaving onChallenge; ABORT -- on the real Twisted session")]
+
+
+# ------------------------------------------------------------------------------------------ replay on the real code
+_HANDSHAKE_HARNESS = r'''
+import json
+import txaio; txaio.use_twisted()
+from autobahn.twisted.wamp import ApplicationSession
+from autobahn.wamp import message, role, types
+from autobahn.wamp.exception import ProtocolError
+
+class Ser: SERIALIZER_ID = "json"
+class T:
+    def __init__(s): s.sent = []; s.closed = 0; s._serializer = Ser()
+    def send(s, m): s.sent.append(m)
+    def is_open(s): return True
+    def isOpen(s): return True
+    def close(s): s.closed += 1
+    transport_details = None
+
+ROLES = {"broker": role.RoleBrokerFeatures(), "dealer": role.RoleDealerFeatures()}
+bad, cases = [], 0
+def chk(c, what, case):
+    if not c and len(bad) < 6: bad.append({"what": what, "case": case})
+
+def mk(welcome="accept", challenge="sig"):
+    ev = []
+    class S(ApplicationSession):
+        def onWelcome(self, msg):
+            ev.append("onWelcome")
+            if welcome == "deny": return "server signature mismatch"
+            if welcome == "raise": raise RuntimeError("boom")
+            return None
+        def onChallenge(self, ch):
+            ev.append("onChallenge")
+            if challenge == "raise": raise RuntimeError("no")
+            return {"sig": "sig", "bytes": b"sig", "none": None, "int": 5}[challenge]
+        def onJoin(self, d): ev.append("onJoin")
+        def onLeave(self, d): ev.append("onLeave")
+        def onDisconnect(self): ev.append("onDisconnect")
+        def onUserError(self, f, m): ev.append("userError")
+    s = S(); t = T()
+    s.on("join", lambda *a, **k: ev.append("join")); s.on("leave", lambda *a, **k: ev.append("leave"))
+    s.on("disconnect", lambda *a, **k: ev.append("disconnect"))
+    s.onOpen(t)
+    t.sent.clear()          # the HELLO sent by the default onConnect
+    return s, t, ev
+
+W = lambda: message.Welcome(4242, ROLES, realm="realm1", authid="u", authrole="r", authmethod="anonymous")
+for pre in ("none", "sig", "bytes"):
+    for welcome in ("accept", "deny", "raise"):
+        for after in ("close", "leave+close", "goodbye", "nothing"):
+            cases += 1
+            case = {"challenge_round": pre, "onWelcome": welcome, "then": after}
+            s, t, ev = mk(welcome, pre if pre != "none" else "sig")
+            if pre != "none":
+                s.onMessage(message.Challenge("wampcra", {}))
+                chk(len(t.sent) == 1 and isinstance(t.sent[0], message.Authenticate) and t.sent[0].signature == "sig",
+                    "CHALLENGE not answered by exactly one AUTHENTICATE with the signature", case)
+                chk(s._session_id is None, "session established by CHALLENGE", case)
+                t.sent.clear()
+            s.onMessage(W())
+            if welcome == "accept":
+                chk(s._session_id == 4242 and ev.count("join") == 1 and ev.count("onJoin") == 1 and not t.sent, "accepted WELCOME did not establish the session once", case)
+            else:
+                chk(s._session_id is None, "denied WELCOME left the session established (session id %r)" % (s._session_id,), case)
+                chk(len(t.sent) == 1 and isinstance(t.sent[0], message.Abort), "denied WELCOME not answered by exactly one ABORT", case)
+                chk("join" not in ev and "onJoin" not in ev, "join fired for a denied session", case)
+                chk(not s.is_attached(), "is_attached() true for a denied session", case)
+            n0 = len(t.sent)
+            if after == "goodbye":
+                try:
+                    s.onMessage(message.Goodbye()); raised = False
+                except ProtocolError: raised = True
+                if welcome != "accept":
+                    chk(raised and len(t.sent) == n0, "GOODBYE before the session is established accepted / answered", case)
+                else:
+                    chk(not raised and len(t.sent) == n0 + 1 and isinstance(t.sent[-1], message.Goodbye) and ev.count("onLeave") == 1, "router GOODBYE not answered once / no leave", case)
+            if after == "leave+close":
+                try: s.leave()
+                except Exception: pass
+                gb = [m for m in t.sent[n0:] if isinstance(m, message.Goodbye)]
+                chk(len(gb) == (1 if welcome == "accept" else 0), "GOODBYE count after leave() wrong: %d" % len(gb), case)
+            if after in ("close", "leave+close"):
+                s.onClose(True)
+                want = 1 if welcome == "accept" else 0
+                chk(ev.count("onLeave") == want and ev.count("leave") == want, "leave fired %d/%d times, expected %d (joined=%s)" % (ev.count("onLeave"), ev.count("leave"), want, welcome == "accept"), case)
+                chk(ev.count("onDisconnect") == 1 and ev.count("disconnect") == 1, "disconnect not fired exactly once", case)
+                if "join" in ev and "leave" in ev: chk(ev.index("join") < ev.index("leave") < ev.index("disconnect"), "callback order", case)
+# CHALLENGE hook misbehaving / ABORT
+for challenge in ("none", "int", "raise"):
+    cases += 1; case = {"onChallenge": challenge}
+    s, t, ev = mk("accept", challenge)
+    s.onMessage(message.Challenge("wampcra", {}))
+    chk(s._session_id is None and not any(isinstance(m, message.Authenticate) for m in t.sent), "AUTHENTICATE sent without a valid signature", case)
+    chk("join" not in ev and ev.count("onLeave") <= 1, "join / repeated leave after a failed CHALLENGE", case)
+    if challenge == "raise":        # the hook itself failed: ABORT, then leave (a hook returning a non-signature is a user
+        # error that Twisted reports as an unhandled error in the Deferred: nothing is sent, which the property allows)
+        chk(len([m for m in t.sent if isinstance(m, message.Abort)]) == 1 and ev.count("onLeave") == 1, "failed CHALLENGE hook not ended by one ABORT + one leave", case)
+cases += 1
+s, t, ev = mk()
+s.onMessage(message.Abort("wamp.error.no_such_realm", "x"))
+chk(s._session_id is None and ev.count("onLeave") == 1 and ev.count("leave") == 1 and "join" not in ev and not t.sent, "ABORT before WELCOME: not exactly one leave", {"msg": "ABORT"})
+print(json.dumps({"bad": bad, "cases": cases}))
+'''
+
+
+def replay(o):
+    """handshake units (WELCOME / CHALLENGE / ABORT arms and their closures): the real Twisted session over a recording
+    transport, every combination of an optional CHALLENGE round, an accepting / denying / raising onWelcome hook and the
+    way the connection ends afterwards, checked against the property statement directly"""
+    from pyvc import replaylib as R
+    unit = o.get("unit") or o.get("name", "")
+    if not any(k in unit for k in ("message.Welcome", "message.Challenge", "pre-session:Welcome", "pre-session:Challenge",
+                                   "pre-session:Abort")):
+        return {"reproduced": False, "detail": "no replay harness for this unit"}
+    out = R.run_py(_HANDSHAKE_HARNESS, timeout=300)
+    bad = out.get("bad") if isinstance(out, dict) else None
+    return {"reproduced": bool(bad), "cases": (bad or [])[:4], "observed": out if not bad else {"cases": out.get("cases")},
+            "detail": "handshake histories on the real session over a recording transport"}
